@@ -72,6 +72,41 @@ def run_item(item):
             out["evals"] += 1
             if r is not True:
                 V(m, vt, f"is_isomorphic-{r}", f"is_isomorphic with its {vt} variant is {r}", m2)
+        # objects derived by the library itself that must still denote the same graph
+        for vt, fn in E.derived(m):
+            try:
+                g2 = fn(U.build(m))
+            except Exception as e:
+                V(m, vt, "derivation-raised:" + type(e).__name__, f"{vt} raised {e!r}")
+                continue
+            if not E.same_content(g2, m):
+                oc["derived-content-differs"] = oc.get("derived-content-differs", 0) + 1
+                continue
+            out["distinct"] += 1
+            oc[vt] = oc.get(vt, 0) + 1
+            for name, a, b in (("fwd", g, g2), ("rev", g2, g), ("refl", g2, g2)):
+                r = _eq(a, b)
+                out["evals"] += 1
+                if r is not True:
+                    V(m, vt, f"{name}-{r}", f"{name}: equality of a freshly built graph and its {vt} counterpart is {r}")
+        for vt, fn, m2 in E.edited_after_use(m):
+            try:
+                g2 = fn(U.build(m))
+                gf = U.build(m2)
+            except Exception as e:
+                V(m, vt, "edit-raised:" + type(e).__name__, f"{vt} raised {e!r}")
+                continue
+            if not E.same_content(g2, m2):
+                oc["derived-content-differs"] = oc.get("derived-content-differs", 0) + 1
+                continue
+            out["distinct"] += 1
+            oc[vt] = oc.get(vt, 0) + 1
+            for name, a, b in (("fwd", gf, g2), ("rev", g2, gf)):
+                r = _eq(a, b)
+                out["evals"] += 1
+                if r is not True:
+                    V(m, vt, f"{name}-{r}", f"{name}: a graph that was hashed/compared and then edited ({vt}) vs a freshly built graph "
+                                            f"with the same content: == is {r}", m2)
         # second pass: the library's own relabel_atoms
         ids = list(m.atoms)
         if ids:
